@@ -150,6 +150,17 @@ def monitor(case: str, out: str) -> list[str]:
 # ------------------------------------------------------------------------------------------------
 # cases
 
+
+def extra_obligations():
+    """`ScopeMetrics._complete_if_able` and `_finish` regenerated from /repo's metrics.py as MiniPy terms: Lean re-checks that each
+    is exactly one level of `Completion.completeUp` / `Completion.finish` - assertion on a resolved future, nothing touched unless
+    the scope was left and its nested scopes are completed, the future resolved exactly once with the elapsed time, then (and only
+    then) the registered parent asked exactly once"""
+    from harness import core, regen
+
+    return regen.check("completion", core.REPO, core.LEAN)
+
+
 def corpus():
     cs = [
         # the late child: constructed in a plain task after the scope it inherited has completed (pinned defect)
